@@ -257,6 +257,17 @@ pub fn gen_text(rng: &mut Rng, mode: &str) -> Vec<u32> {
                 t.push(pick_char(rng, c));
             }
             let kinds = rng.range(1, 4);
+            // completed pairs BEFORE the pending openers (they must survive an overflow of the 63-entry stack),
+            // sometimes more than 63 of them (completed pairs do not count against the limit)
+            let pre_pairs = match rng.below(6) { 0 => rng.range(1, 4), 1 => rng.range(60, 70), _ => 0 };
+            for _ in 0..pre_pairs {
+                let k = rng.below(kinds);
+                t.push(OPEN_BRACKETS[k]);
+                let c = *rng.pick(&[L, R, AL, EN]);
+                t.push(pick_char(rng, c));
+                t.push(CLOSE_BRACKETS[k]);
+                if rng.chance(1, 3) { let c = *rng.pick(&[L, R, WS, NSM]); t.push(pick_char(rng, c)); }
+            }
             let mut opened = vec![];
             for _ in 0..n {
                 let k = rng.below(kinds);
@@ -430,7 +441,7 @@ pub fn to_units(rng: &mut Rng, scalars: &[u32], damage: bool) -> Vec<u32> {
 
 pub const NONFORMAT: [BidiClass; 14] = [L, R, AL, EN, ES, ET, AN, CS, NSM, BN, B, S, WS, ON];
 const CARRIERS_A: [u32; 16] = [0x61, 0x62, 0x63, 0x64, 0x65, 0x66, 0x67, 0x68, 0x31, 0x32, 0x28, 0x29, 0x5B, 0x5D, 0x20, 0xA];
-const CARRIERS_B: [u32; 18] = [0xE0, 0x5D0, 0x905, 0x10000, 0x1F600, 0x3042, 0x627, 0x20AC, 0x1D7CE, 0x661, 0x3008, 0x3009, 0x10400, 0xFF09, 0x2003, 0x2029, 0x2329, 0x232A];
+const CARRIERS_B: [u32; 19] = [0xE0, 0x5D0, 0x905, 0x10000, 0x1F600, 0x3042, 0x627, 0x20AC, 0x1D7CE, 0x661, 0x3008, 0x3009, 0x10400, 0xFF09, 0x2003, 0x2029, 0x2329, 0x232A, 0xFFFD];
 
 /// A random data source over a small alphabet; returns the spec and the alphabet.
 pub fn gen_ds(rng: &mut Rng) -> (DsSpec, Vec<u32>) {
@@ -543,13 +554,16 @@ fn gen_levels(rng: &mut Rng) -> Vec<u8> {
     let n = match rng.below(10) {
         0 => 0,
         1 => 1,
-        2..=6 => rng.range(2, 12),
-        _ => rng.range(12, 60),
+        2..=5 => rng.range(2, 12),
+        6 | 7 => rng.range(12, 60),
+        8 => rng.range(60, 140),       // around 64 / 128 elements (block-wise scans)
+        _ => rng.range(140, 400),
     };
-    let base = match rng.below(6) {
+    let base = match rng.below(7) {
         0 => 120,
         1 => rng.range(100, 124),
         2 => rng.range(0, 60),
+        3 => rng.range(60, 100),
         _ => 0,
     } as u8;
     let spread = *rng.pick(&[1usize, 2, 3, 6]);
@@ -726,8 +740,8 @@ pub fn gen_case(prop: &str, rng: &mut Rng, n: usize, thorough: bool) -> (String,
             }
             bidi_case(rng, &[("para", 10), ("iso", 8), ("short", 4), ("words", 2), ("sep", 2), ("deepiso", 1), ("deep", 1)], true)
         }
-        "C03" | "C06" => line_case(rng, &[("sep", 5), ("short", 3), ("words", 3), ("iso", 2), ("para", 2), ("long", 1)]),
-        "C05" => line_case(rng, &[("sep", 3), ("short", 3), ("words", 3), ("iso", 2), ("deep", 1), ("long", 2), ("max", 2)]),
+        "C03" | "C06" => line_case(rng, &[("sep", 5), ("short", 3), ("words", 3), ("iso", 2), ("para", 2), ("long", 1), ("siblings", 1)]),
+        "C05" => line_case(rng, &[("sep", 3), ("short", 3), ("words", 3), ("iso", 2), ("deep", 1), ("long", 2), ("max", 2), ("siblings", 1)]),
         "C04" => ("levels".into(), Input::Rv { levels: gen_levels(rng) }),
         "C07" => match rng.below(10) {
             0..=3 => bidi_case(rng, &[("deep", 3), ("brk", 3), ("sep", 2), ("iso", 2), ("para", 2), ("short", 2), ("empty", 1), ("max", 2), ("removed", 2), ("siblings", 1)], true),
@@ -813,6 +827,10 @@ pub fn gen_case(prop: &str, rng: &mut Rng, n: usize, thorough: bool) -> (String,
                 let enc = if rng.chance(1, 2) { Enc::U8 } else { Enc::U16 };
                 let text = if enc == Enc::U16 { to_units(rng, &t, false) } else { t };
                 return ("ds-keys".into(), Input::Bidi { enc, api: Api::B, dir: pick_dir(rng), text, ds: Some(spec) });
+            }
+            if rng.chance(1, 10) {
+                // no custom source: the convenience constructors against the built-in source passed explicitly (CONV)
+                return bidi_case(rng, &MODES_ALL, true);
             }
             if rng.chance(1, 7) {
                 // explicit formatting CLASSES on ordinary characters of every width, and ordinary classes on the real
@@ -932,7 +950,9 @@ pub fn gen_case(prop: &str, rng: &mut Rng, n: usize, thorough: bool) -> (String,
                 let dir = pick_dir(rng);
                 let (spec, alpha) = gen_ds(rng);
                 let t = gen_ds_text(rng, &alpha);
-                let text = if enc == Enc::U16 { to_units(rng, &t, false) } else { t };
+                // ill-formed UTF-16 together with a data source: an unpaired surrogate is looked up as U+FFFD
+                let damage = rng.chance(1, 4);
+                let text = if enc == Enc::U16 { to_units(rng, &t, damage) } else { t };
                 match rng.below(3) {
                     0 => {
                         if let Some((para, a, b)) = pick_line(rng, enc, api, dir, &text, &Some(spec.clone())) {
@@ -1065,7 +1085,20 @@ pub fn gen_case(prop: &str, rng: &mut Rng, n: usize, thorough: bool) -> (String,
             _ => ("table".into(), Input::Cls),
         },
         "C16" => {
-            let mode = pick_mode(rng, &[("iso", 10), ("para", 10), ("short", 4), ("words", 2), ("empty", 2), ("deepiso", 1)]);
+            if rng.chance(1, 60) {
+                // several hundred isolate initiators open at once, then as many PDIs (minus a few), then strong text:
+                // the depth counter must not wrap at 256
+                let n = rng.range(250, 300);
+                let mut t: Vec<u32> = (0..n).map(|_| *rng.pick(&[LRI_C, RLI_C, FSI_C])).collect();
+                let close = n - rng.below(3);
+                for _ in 0..close { t.push(PDI_C); }
+                t.push(*rng.pick(&[0x5D0u32, 0x61, 0x627]));
+                for _ in 0..rng.range(0, 3) { t.push(PDI_C); }
+                t.push(*rng.pick(&[0x5D0u32, 0x61]));
+                let enc = if rng.chance(1, 2) { Enc::U8 } else { Enc::U16 };
+                return ("isocount".into(), Input::BaseDir { enc, text: t, ds: None });
+            }
+            let mode = pick_mode(rng, &[("iso", 10), ("para", 10), ("short", 4), ("words", 2), ("empty", 2), ("deepiso", 1), ("siblings", 1)]);
             let enc = if rng.chance(1, 2) { Enc::U8 } else { Enc::U16 };
             if rng.chance(1, 6) {
                 let (spec, alpha) = gen_ds(rng);
@@ -1121,10 +1154,19 @@ pub fn gen_case(prop: &str, rng: &mut Rng, n: usize, thorough: bool) -> (String,
                 .map(|_| match rng.below(8) {
                     0 | 1 => 0xD800 + rng.below(0x400) as u32,
                     2 | 3 => 0xDC00 + rng.below(0x400) as u32,
-                    4 => *rng.pick(&[0x41u32, 0x20, 0x5D0, 0xFFFD, 0xFFFF, 0xD7FF, 0xE000]),
+                    4 => *rng.pick(&[0x41u32, 0x20, 0x5D0, 0xFFFD, 0xFFFF, 0xD7FF, 0xE000, 0xDBFF, 0xDFFF, 0xD800, 0xDC00, 0xDBFF, 0xDFFF]),
                     _ => 0x41 + rng.below(26) as u32,
                 })
                 .collect();
+            // the extreme surrogate pairs (U+10000, U+10FFFF, U+103FF, U+10FC00) as adjacent units
+            let mut units = units;
+            if rng.chance(1, 6) {
+                let pr = *rng.pick(&[(0xD800u32, 0xDC00u32), (0xDBFF, 0xDFFF), (0xD800, 0xDFFF), (0xDBFF, 0xDC00)]);
+                let at = rng.below(units.len() + 1);
+                units.insert(at, pr.1);
+                units.insert(at, pr.0);
+            }
+            let n = units.len();
             let k = rng.range(0, n + 3);
             let bias = rng.below(10);
             let ops: String = match bias {
@@ -1152,14 +1194,19 @@ pub fn gen_case(prop: &str, rng: &mut Rng, n: usize, thorough: bool) -> (String,
                 if len <= 40 { levels[pos] = (rng.below(63) * 2 + 1) as u8; }
                 ("slice-one-odd".into(), Input::HasRtl { levels })
             } else {
-                let len = if rng.chance(1, 4) { rng.range(12, 70) } else { rng.range(0, 12) };
+                let len = match rng.below(8) { 0 | 1 => rng.range(12, 70), 2 => rng.range(200, 600), 3 => rng.range(4000, 5000), _ => rng.range(0, 12) };
                 let even = rng.chance(1, 2);
-                let levels: Vec<u8> = (0..len)
+                let mut levels: Vec<u8> = (0..len)
                     .map(|_| {
-                        let v = rng.below(127) as u8;
-                        if even { v & !1 } else { v }
+                        let v = rng.below(126) as u8;
+                        if even || len > 100 { v & !1 } else { v }
                     })
                     .collect();
+                // long slices: all even, or exactly one odd level somewhere (often near the end)
+                if len > 100 && rng.chance(2, 3) {
+                    let pos = if rng.chance(1, 2) { len - 1 - rng.below(8.min(len)) } else { rng.below(len) };
+                    levels[pos] |= 1;
+                }
                 ("slice".into(), Input::HasRtl { levels })
             }
         }
